@@ -152,7 +152,16 @@ theorem C05_sequential_reloads_monotone (ρ : Nat) (t : List Ev) (hv : valid ful
     List.Pairwise (· ≤ ·) (pubsOf ρ (run init t)) :=
   (seq_run ρ init t inv_init (seqInv_init ρ) hv hs).2.sorted
 
-/-- …but the lock covers loading, not the `ArcSwap` store: two *overlapping* reloads of the
+/-- how the source enforces the hypothesis `sequential ρ t` of the theorem above since the repair
+of S5: `InnerIndexReader::reload` binds a guard of the per-reader `reload_lock` in its outermost
+block before `create_searcher` (which loads meta.json and opens the segments) and keeps it until
+after the single, unconditional `searcher.store` — so a reload of a reader starts only when
+every earlier reload of that reader has published. (Ordering publications by generation id
+instead does not give this: the id is drawn after the load.) -/
+theorem C05_reloads_of_one_reader_serialised : Gen.RELOAD_MUTEX_COVERS_LOAD_AND_STORE = 1 := by
+  decide
+
+/-- …but META_LOCK covers loading, not the `ArcSwap` store: two *overlapping* reloads of the
 same reader, both following the discipline, can publish in the reverse order of their
 `loadMeta`, and the reader moves back from meta_2 to meta_1. -/
 theorem C05_concurrent_reloads_counterexample :
